@@ -101,6 +101,31 @@ ObsDsn(o, S, suppress) ==
       o4 == V(o3, \A r \in DOMAIN o1.bounced : ~(o1.committed[r] >= 1 /\ o1.bounced[r] >= 1), "DeliveredAndBounced")
   IN V(o4, ~suppress, "ReportAlthoughSuppressed")
 
+\* status code the scripted failures carry (harness/scripted/errs.go); an unclassified error has
+\* no code of its own and is stored as the generic temporary one
+StatusOf(res) == CASE res = "temp" -> "4.3.0" [] res = "perm" -> "5.1.1" [] OTHER -> "4.0.0"
+
+\* a report as the bounce pipeline saw it (parsed with an independent MIME parser)
+GoodReport(x) ==
+  [ mimeOK |-> TRUE, reportType |-> "delivery-status", parts |-> 3, dsnAscii |-> TRUE,
+    returnPath |-> "", toSender |-> TRUE, hasOrigHdr |-> TRUE, origSubjOK |-> TRUE,
+    listed |-> x.listed, rewritten |-> {}, status |-> x.status ]
+
+\* C18 predicates over one report (o.last holds each recipient's final outcome of the attempt)
+ObsReport(o, rep, utf8) ==
+  LET o1 == V(o, rep.mimeOK /\ rep.reportType = "delivery-status" /\ rep.parts >= 2
+                 /\ (utf8 \/ rep.dsnAscii), "ReportNotWellFormed")
+      o2 == V(o1, rep.returnPath = "", "ReportReturnPathNotNull")
+      o3 == V(o2, rep.toSender, "ReportNotToSender")
+      o4 == V(o3, rep.hasOrigHdr /\ rep.origSubjOK, "ReportLacksOriginalHeader")
+      o5 == V(o4, rep.rewritten = {}, "ReportUsesRewrittenAddress")
+      o6 == V(o5, \A r \in DOMAIN rep.status :
+                     r \in DOMAIN o.last => rep.status[r] = StatusOf(o.last[r]), "ReportStatusMismatch")
+      o7 == V(o6, o.owed = {}, "ReportOmitsFailedRcpt")
+      o8 == V(o7, \A i, j \in 1..Len(rep.listed) : i # j => rep.listed[i] # rep.listed[j],
+              "ReportListsRcptTwice")
+  IN o8
+
 \* the queue went quiet (nothing scheduled any more, or nothing happened for longer
 \* than any retry delay); spoolEmpty = no file of the message is left
 ObsQuiesced(o, suppress, spoolEmpty) ==
